@@ -198,10 +198,45 @@ def clause3(P, res):
             res.holds(rid, bid, f"{n} reachable functions, none refreshes access state", where=f"{b.file}:{b.line}")
 
 
+SLOT_ALIASES = {"time_to_live": {"ttl", "time_to_live", "global_ttl"}, "time_to_idle": {"tti", "time_to_idle"}}
+
+
+def clause4(P, res):
+    rid = "C12-4"
+    res.rule(rid, "expiry inputs reach the right slot: wherever the configured `time_to_live` / `time_to_idle` is passed to a cache function, the receiving "
+                  "parameter is the TTL (resp. TTI) parameter of that function — the two have the same type, so a swap compiles and silently changes which "
+                  "deadline an entry gets")
+    n = 0
+    for b in cl.cache_bodies(P):
+        for e in b.calls():
+            tgt = P.body(e.callee_resolved)
+            if tgt is None or not tgt.id.startswith("fibre_cache::"):
+                continue
+            for i, a in enumerate(e.args):
+                p = b.path_of_operand(a)
+                last = p.rsplit(".", 1)[-1]
+                if last not in SLOT_ALIASES or i + 1 > tgt.argc:
+                    continue
+                pname = tgt.local_name(i + 1)
+                other = [k for k in SLOT_ALIASES if k != last][0]
+                n += 1
+                key = f"{b.id}->{tgt.name}:arg{i}:{last}"
+                if pname in SLOT_ALIASES[other]:
+                    res.violated(rid, key, f"`{p}` is passed at {e.loc} as parameter `{pname}` of {tgt.id.rsplit('::', 2)[-2]}::{tgt.name}: the idle timeout and the time-to-live are swapped, "
+                                 "entries created here get the wrong deadline", where=e.loc)
+                elif pname in SLOT_ALIASES[last]:
+                    res.holds(rid, key, f"`{last}` -> parameter `{pname}`", where=e.loc)
+                else:
+                    res.holds(rid, key, f"`{last}` -> parameter `{pname}` (no TTL/TTI role)", where=e.loc, nontrivial=False)
+    if n < 12:
+        res.violated(rid, "expiry-arguments", f"expected >= 12 call sites passing time_to_live/time_to_idle, found {n}")
+
+
 def run(P, ctx):
     res = Result("C12")
     res.extra["explanation"] = ("Expiry-gate, Expired-reason justification and peek-does-not-refresh shapes over every value read of fibre_cache.")
     clause1(P, res)
     clause2(P, res)
     clause3(P, res)
+    clause4(P, res)
     return res
